@@ -5,6 +5,7 @@
   the emitted decoders on every run (`bin/check C01`).
 -/
 import Pdlv.Wire
+import Pdlv.Static
 
 namespace Pdlv
 
@@ -198,5 +199,1418 @@ example : SuffixSafe (decTy { e := .little } (.scalar 8)) := by
     rw [← h.2]; exact getUint_suffix _ _ _ _ _ hg
   | err e => simp [hg] at h
   | panic p => simp [hg] at h
+
+end Pdlv
+
+namespace Pdlv
+
+/-- a decoder step that, when it succeeds, leaves at most `length - m` octets -/
+def Consumes (f : Bytes → Dec (Value × Bytes)) (m : Nat) : Prop :=
+  ∀ bs v r, f bs = .ok (v, r) → r.length + m ≤ bs.length
+
+theorem getUint_consumes (e : Endian) (w : Nat) (bs : Bytes) (v : Nat) (r : Bytes)
+    (h : getUint e w bs = .ok (v, r)) : r.length + w / 8 = bs.length := by
+  unfold getUint at h
+  simp only at h
+  split at h
+  · cases h
+  · simp only [Outcome.ok.injEq, Prod.mk.injEq] at h
+    rw [← h.2, List.length_drop]; omega
+
+theorem decRepeat_le (f : Bytes → Dec (Value × Bytes)) (hf : Consumes f 0) :
+    ∀ n bs vs r, decRepeat f n bs = .ok (vs, r) → r.length ≤ bs.length := by
+  intro n
+  induction n with
+  | zero => intro bs vs r h; simp [decRepeat] at h; rw [← h.2]; exact Nat.le_refl _
+  | succ n ih =>
+    intro bs vs r h
+    simp only [decRepeat, Outcome.bind] at h
+    cases hfb : f bs with
+    | ok p =>
+      obtain ⟨v, bs'⟩ := p
+      simp only [hfb] at h
+      cases hr : decRepeat f n bs' with
+      | ok q =>
+        obtain ⟨vs', r'⟩ := q
+        simp only [hr, Outcome.ok.injEq, Prod.mk.injEq] at h
+        have h1 := ih bs' vs' r' hr
+        have h2 := hf bs v bs' hfb
+        rw [← h.2]; omega
+      | err e => simp [hr] at h
+      | panic p => simp [hr] at h
+    | err e => simp [hfb] at h
+    | panic p => simp [hfb] at h
+
+/-- `bind`-inversion -/
+theorem bind_ok {ε α β : Type} (x : Outcome ε α) (f : α → Outcome ε β) (b : β)
+    (h : x.bind f = .ok b) : ∃ a, x = .ok a ∧ f a = .ok b := by
+  cases x with
+  | ok a => exact ⟨a, rfl, h⟩
+  | err e => simp [Outcome.bind] at h
+  | panic p => simp [Outcome.bind] at h
+
+theorem zeroElem_le (m : Mode) (el : Bytes → Dec (Value × Bytes)) (n : Nat) (hz : Hazard) (sp : Bytes)
+    (vs : List Value) (r : Bytes) (h : zeroElem m el n hz sp = .ok (vs, r)) : r.length ≤ sp.length := by
+  unfold zeroElem at h
+  cases m with
+  | rust => cases h
+  | ideal =>
+    simp only at h
+    obtain ⟨a, _, ha⟩ := bind_ok _ _ _ h
+    simp only [Outcome.ok.injEq, Prod.mk.injEq] at ha
+    rw [← ha.2]; exact Nat.le_refl _
+
+theorem decArray_le (m : Mode) (el : Bytes → Dec (Value × Bytes)) (hel : Consumes el 0)
+    (ew : ElemWidth) (shape : Shape) (cnt siz esz : Option Nat) (sp : Bytes) (vs : List Value) (r : Bytes)
+    (h : decArray m el ew shape cnt siz esz sp = .ok (vs, r)) : r.length ≤ sp.length := by
+  have hrep := decRepeat_le el hel
+  unfold decArray at h
+  cases ew <;> cases shape <;> simp only at h
+  -- static w
+  · -- static, static n
+    split at h
+    · cases h
+    · obtain ⟨⟨ws, r'⟩, h1, h2⟩ := bind_ok _ _ _ h
+      obtain ⟨ws', _, h4⟩ := bind_ok _ _ _ h2
+      simp only [Outcome.ok.injEq, Prod.mk.injEq] at h4
+      rw [← h4.2]; exact hrep _ _ _ _ h1
+  · -- static, countField
+    cases cnt with
+    | none => cases h
+    | some n =>
+      simp only at h
+      obtain ⟨tot, _, h2⟩ := bind_ok _ _ _ h
+      split at h2
+      · cases h2
+      · exact hrep _ _ _ _ h2
+  · -- static, sizeField
+    cases siz with
+    | none => cases h
+    | some sz =>
+      simp only at h
+      split at h
+      · cases h
+      · split at h
+        · cases h
+        · split at h
+          · cases h
+          · exact hrep _ _ _ _ h
+  · -- static, unknown
+    split at h
+    · cases h
+    · split at h
+      · cases h
+      · exact hrep _ _ _ _ h
+  -- dynamic
+  · cases esz with
+    | none => cases h
+    | some es =>
+      simp only at h
+      obtain ⟨tot, _, h2⟩ := bind_ok _ _ _ h
+      split at h2
+      · cases h2
+      · split at h2
+        · exact zeroElem_le _ _ _ _ _ _ _ h2
+        · obtain ⟨ws, _, h3⟩ := bind_ok _ _ _ h2
+          obtain ⟨ws', _, h4⟩ := bind_ok _ _ _ h3
+          simp only [Outcome.ok.injEq, Prod.mk.injEq] at h4
+          rw [← h4.2, List.length_drop]; omega
+  · cases esz with
+    | none => cases h
+    | some es =>
+      cases cnt with
+      | none => cases h
+      | some n =>
+        simp only at h
+        obtain ⟨tot, _, h2⟩ := bind_ok _ _ _ h
+        split at h2
+        · cases h2
+        · split at h2
+          · exact zeroElem_le _ _ _ _ _ _ _ h2
+          · obtain ⟨ws, _, h3⟩ := bind_ok _ _ _ h2
+            simp only [Outcome.ok.injEq, Prod.mk.injEq] at h3
+            rw [← h3.2, List.length_drop]; omega
+  · cases esz with
+    | none => cases h
+    | some es =>
+      cases siz with
+      | none => cases h
+      | some sz =>
+        simp only at h
+        split at h
+        · cases h
+        · split at h
+          · split at h
+            · split at h
+              · simp only [Outcome.ok.injEq, Prod.mk.injEq] at h; rw [← h.2]; exact Nat.le_refl _
+              · cases h
+            · cases h
+          · split at h
+            · cases h
+            · obtain ⟨ws, _, h3⟩ := bind_ok _ _ _ h
+              simp only [Outcome.ok.injEq, Prod.mk.injEq] at h3
+              rw [← h3.2, List.length_drop]; omega
+  · cases esz with
+    | none => cases h
+    | some es =>
+      simp only at h
+      split at h
+      · split at h
+        · split at h
+          · simp only [Outcome.ok.injEq, Prod.mk.injEq] at h; rw [← h.2]; exact Nat.le_refl _
+          · cases h
+        · cases h
+      · split at h
+        · cases h
+        · obtain ⟨ws, _, h3⟩ := bind_ok _ _ _ h
+          simp only [Outcome.ok.injEq, Prod.mk.injEq] at h3
+          rw [← h3.2]; simp
+  -- unknown
+  · obtain ⟨⟨ws, r'⟩, h1, h2⟩ := bind_ok _ _ _ h
+    obtain ⟨ws', _, h4⟩ := bind_ok _ _ _ h2
+    simp only [Outcome.ok.injEq, Prod.mk.injEq] at h4
+    rw [← h4.2]; exact hrep _ _ _ _ h1
+  · cases cnt with
+    | none => cases h
+    | some n => exact hrep _ _ _ _ h
+  · cases siz with
+    | none => cases h
+    | some sz =>
+      simp only at h
+      split at h
+      · cases h
+      · obtain ⟨ws, _, h3⟩ := bind_ok _ _ _ h
+        simp only [Outcome.ok.injEq, Prod.mk.injEq] at h3
+        rw [← h3.2, List.length_drop]; omega
+  · obtain ⟨ws, _, h3⟩ := bind_ok _ _ _ h
+    simp only [Outcome.ok.injEq, Prod.mk.injEq] at h3
+    rw [← h3.2]; simp
+
+theorem withPad_consumes (pad : Option Nat) (bs : Bytes) (k : Bytes → Dec (List Value × Bytes))
+    (hk : ∀ sp vs r, k sp = .ok (vs, r) → r.length ≤ sp.length) (vs : List Value) (r : Bytes)
+    (h : withPad pad bs k = .ok (vs, r)) : r.length + pad.getD 0 ≤ bs.length := by
+  unfold withPad at h
+  cases pad with
+  | none => simpa using hk bs vs r h
+  | some p =>
+    simp only at h
+    split at h
+    · cases h
+    · obtain ⟨⟨ws, r'⟩, _, h2⟩ := bind_ok _ _ _ h
+      simp only [Outcome.ok.injEq, Prod.mk.injEq] at h2
+      rw [← h2.2, List.length_drop]; simp; omega
+
+theorem decChunk_consumes (e : Endian) (ideal : Bool) (fs : List BitField) (bs : Bytes) (st st' : DState)
+    (r : Bytes) (h : decChunk e ideal fs bs st = .ok (st', r)) : r.length + chunkBits fs / 8 = bs.length := by
+  unfold decChunk at h
+  simp only at h
+  split at h
+  · cases h
+  · obtain ⟨a, _, h2⟩ := bind_ok _ _ _ h
+    simp only [Outcome.ok.injEq, Prod.mk.injEq] at h2
+    rw [← h2.2, List.length_drop]; omega
+
+mutual
+theorem decTy_consumes (c : Cfg) : ∀ (ty : Ty) (bs : Bytes) (v : Value) (r : Bytes),
+    decTy c ty bs = .ok (v, r) → r.length + minTy ty ≤ bs.length
+  | .scalar w, bs, v, r, h => by
+    simp only [decTy] at h
+    obtain ⟨⟨x, r'⟩, h1, h2⟩ := bind_ok _ _ _ h
+    simp only [Outcome.ok.injEq, Prod.mk.injEq] at h2
+    have := getUint_consumes _ _ _ _ _ h1
+    rw [← h2.2]; simp only [minTy]; omega
+  | .enumTy _ en, bs, v, r, h => by
+    simp only [decTy] at h
+    obtain ⟨⟨x, r'⟩, h1, h2⟩ := bind_ok _ _ _ h
+    have := getUint_consumes _ _ _ _ _ h1
+    simp only at h2
+    split at h2
+    · simp only [Outcome.ok.injEq, Prod.mk.injEq] at h2
+      rw [← h2.2]; simp only [minTy]; omega
+    · cases h2
+  | .custom _ w, bs, v, r, h => by
+    simp only [decTy] at h
+    split at h
+    · cases h
+    · obtain ⟨⟨x, r'⟩, h1, h2⟩ := bind_ok _ _ _ h
+      simp only [Outcome.ok.injEq, Prod.mk.injEq] at h2
+      have := getUint_consumes _ _ _ _ _ h1
+      rw [← h2.2]; simp only [minTy]; omega
+  | .struct _ b, bs, v, r, h => by
+    simp only [decTy] at h
+    simp only [minTy]
+    exact decBody_consumes c b bs v r h
+
+theorem decItem_consumes (c : Cfg) : ∀ (i : Item) (bs : Bytes) (st st' : DState) (r : Bytes),
+    decItem c i bs st = .ok (st', r) → r.length + minItem i ≤ bs.length
+  | .chunk fs, bs, st, st', r, h => by
+    simp only [decItem] at h
+    have := decChunk_consumes _ _ _ _ _ _ _ h
+    simp only [minItem]; omega
+  | .typedef id ty sb, bs, st, st', r, h => by
+    simp only [minItem]
+    cases ty with
+    | custom nm w =>
+      simp only [decItem] at h
+      split at h
+      · split at h <;> cases h
+      · obtain ⟨⟨x, r'⟩, h1, h2⟩ := bind_ok _ _ _ h
+        simp only [Outcome.ok.injEq, Prod.mk.injEq] at h2
+        have := getUint_consumes _ _ _ _ _ h1
+        rw [← h2.2]; simp only [minTy]; omega
+    | scalar w =>
+      simp only [decItem] at h
+      obtain ⟨⟨x, r'⟩, h1, h2⟩ := bind_ok _ _ _ h
+      simp only [Outcome.ok.injEq, Prod.mk.injEq] at h2
+      rw [← h2.2]; exact decTy_consumes c (.scalar w) bs x r' h1
+    | enumTy nm en =>
+      simp only [decItem] at h
+      obtain ⟨⟨x, r'⟩, h1, h2⟩ := bind_ok _ _ _ h
+      simp only [Outcome.ok.injEq, Prod.mk.injEq] at h2
+      rw [← h2.2]; exact decTy_consumes c (.enumTy nm en) bs x r' h1
+    | struct nm b =>
+      simp only [decItem] at h
+      obtain ⟨⟨x, r'⟩, h1, h2⟩ := bind_ok _ _ _ h
+      simp only [Outcome.ok.injEq, Prod.mk.injEq] at h2
+      rw [← h2.2]; exact decTy_consumes c (.struct nm b) bs x r' h1
+  | .optional id ty cid cval, bs, st, st', r, h => by
+    simp only [minItem, Nat.add_zero]
+    simp only [decItem] at h
+    cases hctx : st.ctx.get (.val cid) with
+    | none => simp [hctx] at h
+    | some cv =>
+      simp only [hctx] at h
+      by_cases hcv : cv = cval
+      · simp only [hcv, ↓reduceIte] at h
+        have key : ∀ x r', decTy c ty bs = .ok (x, r') → r'.length ≤ bs.length := fun x r' hx => by
+          have := decTy_consumes c ty bs x r' hx; omega
+        have fin : (Outcome.bind (decTy c ty bs) fun x =>
+            Outcome.ok ({ ctx := st.ctx, fields := st.fields ++ [(id, x.fst)], payload := st.payload }, x.snd))
+              = .ok (st', r) → r.length ≤ bs.length := by
+          intro hb
+          obtain ⟨⟨x, r'⟩, h1, h2⟩ := bind_ok _ _ _ hb
+          simp only [Outcome.ok.injEq, Prod.mk.injEq] at h2
+          rw [← h2.2]; exact key x r' h1
+        cases ty with
+        | scalar w =>
+          simp only at h
+          split at h
+          · cases h
+          · exact fin h
+        | enumTy nm en =>
+          simp only at h
+          split at h
+          · cases h
+          · exact fin h
+        | custom nm w =>
+          simp only [Bool.false_eq_true, ↓reduceIte] at h
+          exact fin h
+        | struct nm b =>
+          simp only [Bool.false_eq_true, ↓reduceIte] at h
+          exact fin h
+      · simp only [hcv, ↓reduceIte, Outcome.ok.injEq, Prod.mk.injEq] at h
+        rw [← h.2]; exact Nat.le_refl _
+  | .payload mode, bs, st, st', r, h => by
+    simp only [minItem, Nat.add_zero]
+    simp only [decItem] at h
+    cases mode with
+    | sized m =>
+      simp only at h
+      split at h
+      · cases h
+      · split at h
+        · cases h
+        · split at h
+          · cases h
+          · simp only [Outcome.ok.injEq, Prod.mk.injEq] at h
+            rw [← h.2, List.length_drop]; omega
+    | last =>
+      simp only [Outcome.ok.injEq, Prod.mk.injEq] at h
+      rw [← h.2]; simp
+    | beforeStatic k =>
+      simp only at h
+      split at h
+      · cases h
+      · simp only [Outcome.ok.injEq, Prod.mk.injEq] at h
+        rw [← h.2, List.length_drop]; omega
+    | undelimited => cases h
+  | .array id elem ew shape pad, bs, st, st', r, h => by
+    simp only [minItem]
+    simp only [decItem] at h
+    split at h
+    · cases h
+    · obtain ⟨⟨vs, r'⟩, h1, h2⟩ := bind_ok _ _ _ h
+      simp only [Outcome.ok.injEq, Prod.mk.injEq] at h2
+      rw [← h2.2]
+      refine withPad_consumes pad bs _ ?_ vs r' h1
+      intro sp ws q hq
+      refine decArray_le c.mode (decTy c elem) ?_ ew shape _ _ _ sp ws q hq
+      intro b v q' hb
+      have := decTy_consumes c elem b v q' hb
+      omega
+
+theorem decItems_consumes (c : Cfg) : ∀ (is : Items) (bs : Bytes) (st st' : DState) (r : Bytes),
+    decItems c is bs st = .ok (st', r) → r.length + minItems is ≤ bs.length
+  | .nil, bs, st, st', r, h => by
+    simp only [decItems, Outcome.ok.injEq, Prod.mk.injEq] at h
+    rw [← h.2]; simp [minItems]
+  | .cons i is, bs, st, st', r, h => by
+    simp only [decItems] at h
+    obtain ⟨⟨st1, b1⟩, h1, h2⟩ := bind_ok _ _ _ h
+    have a := decItem_consumes c i bs st st1 b1 h1
+    have b := decItems_consumes c is b1 st1 st' r h2
+    simp only [minItems]; omega
+
+theorem decBody_consumes (c : Cfg) : ∀ (b : Body) (bs : Bytes) (v : Value) (r : Bytes),
+    decBody c b bs = .ok (v, r) → r.length + minBody b ≤ bs.length
+  | .root _ items, bs, v, r, h => by
+    simp only [decBody] at h
+    obtain ⟨⟨st1, b1⟩, h1, h2⟩ := bind_ok _ _ _ h
+    simp only [Outcome.ok.injEq, Prod.mk.injEq] at h2
+    rw [← h2.2]; simp only [minBody]
+    exact decItems_consumes c items bs DState.empty st1 b1 h1
+  | .derived _ parent cs _ items, bs, v, r, h => by
+    simp only [decBody] at h
+    obtain ⟨⟨pv, b1⟩, h1, h2⟩ := bind_ok _ _ _ h
+    obtain ⟨x, _, h3⟩ := bind_ok _ _ _ h2
+    simp only [Outcome.ok.injEq, Prod.mk.injEq] at h3
+    rw [← h3.2]; simp only [minBody]
+    exact decBody_consumes c parent bs pv b1 h1
+end
+
+/-! ### the decoder never panics — except at the four recorded hazard sites of the emitted code -/
+
+/-- the hazards of the decoder emitted at the pinned tree (known findings KF-C01-count-mul,
+    -custom-read, -esize-zero-chunks, -esize-zero-rem); the reference mode has none -/
+def knownHazard : Hazard → Bool
+  | .mulOverflow | .customRead | .chunksZero | .remZero => true
+  | _ => false
+
+/-- an outcome that is not a panic, or — in the model of the emitted code only — one of the
+    recorded hazards -/
+def Safe {α : Type} (m : Mode) (o : Dec α) : Prop :=
+  match o with
+  | .panic h => m = .rust ∧ knownHazard h = true
+  | _ => True
+
+theorem Safe.bind {α β : Type} {m : Mode} {x : Dec α} {f : α → Dec β}
+    (hx : Safe m x) (hf : ∀ a, x = .ok a → Safe m (f a)) : Safe m (x.bind f) := by
+  cases x with
+  | ok a => exact hf a rfl
+  | err e => trivial
+  | panic h => exact hx
+
+theorem Safe.ok {α : Type} (m : Mode) (a : α) : Safe m (Outcome.ok a : Dec α) := trivial
+theorem Safe.err {α : Type} (m : Mode) (e : DecErr) : Safe m (Outcome.err e : Dec α) := trivial
+
+def SafeF (m : Mode) (f : Bytes → Dec (Value × Bytes)) : Prop := ∀ bs, Safe m (f bs)
+
+/-- an unguarded fixed-width read: with `k` octets available it succeeds consuming exactly `k`,
+    or fails with an error -/
+def StaticStep (f : Bytes → Dec (Value × Bytes)) (k : Nat) : Prop :=
+  ∀ bs, k ≤ bs.length → (∃ v, f bs = .ok (v, bs.drop k)) ∨ (∃ e, f bs = .err e)
+
+theorem decRepeat_safe (m : Mode) (f : Bytes → Dec (Value × Bytes)) (hf : SafeF m f) :
+    ∀ n bs, Safe m (decRepeat f n bs) := by
+  intro n
+  induction n with
+  | zero => intro bs; trivial
+  | succ n ih =>
+    intro bs
+    simp only [decRepeat]
+    refine Safe.bind (hf bs) ?_
+    intro ⟨v, bs'⟩ _
+    refine Safe.bind (ih bs') ?_
+    intro ⟨vs, r⟩ _
+    trivial
+
+theorem decRepeat_static_safe (m : Mode) (f : Bytes → Dec (Value × Bytes)) (k : Nat) (hf : StaticStep f k) :
+    ∀ n bs, n * k ≤ bs.length → Safe m (decRepeat f n bs) := by
+  intro n
+  induction n with
+  | zero => intro bs _; trivial
+  | succ n ih =>
+    intro bs hlen
+    simp only [decRepeat]
+    have hk : k ≤ bs.length := by
+      have : (n + 1) * k = n * k + k := Nat.succ_mul n k
+      omega
+    rcases hf bs hk with ⟨v, hv⟩ | ⟨e, he⟩
+    · rw [hv]
+      simp only [Outcome.bind]
+      have hrest : n * k ≤ (bs.drop k).length := by
+        have : (n + 1) * k = n * k + k := Nat.succ_mul n k
+        rw [List.length_drop]; omega
+      refine Safe.bind (ih (bs.drop k) hrest) ?_
+      intro ⟨vs, r⟩ _
+      trivial
+    · rw [he]; trivial
+
+theorem decWhile_safe (m : Mode) (f : Bytes → Dec (Value × Bytes)) (hf : SafeF m f)
+    (hprog : ∀ bs v r, bs ≠ [] → f bs = .ok (v, r) → r.length < bs.length) :
+    ∀ fuel bs, bs.length < fuel → Safe m (decWhile f fuel bs) := by
+  intro fuel
+  induction fuel with
+  | zero => intro bs h; omega
+  | succ fuel ih =>
+    intro bs h
+    simp only [decWhile]
+    split
+    · trivial
+    · rename_i hne
+      have hne' : bs ≠ [] := by intro h0; simp [h0] at hne
+      refine Safe.bind (hf bs) ?_
+      intro ⟨v, bs'⟩ hfb
+      have hlt := hprog bs v bs' hne' hfb
+      simp only [hlt, ↓reduceIte]
+      refine Safe.bind (ih bs' (by omega)) ?_
+      intro vs _
+      trivial
+
+theorem decChunked_safe (m : Mode) (f : Bytes → Dec (Value × Bytes)) (hf : SafeF m f) (es : Nat) :
+    ∀ n bs, Safe m (decChunked f es n bs) := by
+  intro n
+  induction n with
+  | zero => intro bs; trivial
+  | succ n ih =>
+    intro bs
+    simp only [decChunked]
+    split
+    · trivial
+    · refine Safe.bind (hf _) ?_
+      intro ⟨v, r⟩ _
+      simp only
+      split
+      · refine Safe.bind (ih _) ?_
+        intro vs _
+        trivial
+      · trivial
+
+theorem umulM_safe (m : Mode) (a b : Nat) : Safe m (umulM m a b) := by
+  unfold umulM
+  cases m with
+  | rust =>
+    simp only [umul]
+    split
+    · trivial
+    · exact ⟨rfl, rfl⟩
+  | ideal =>
+    simp only
+    split <;> trivial
+
+theorem umulM_ok (m : Mode) (a b t : Nat) (h : umulM m a b = .ok t) : t = a * b := by
+  unfold umulM at h
+  cases m with
+  | rust =>
+    simp only [umul] at h
+    split at h
+    · simp only [Outcome.ok.injEq] at h; exact h.symm
+    · cases h
+  | ideal =>
+    simp only at h
+    split at h
+    · simp only [Outcome.ok.injEq] at h; exact h.symm
+    · cases h
+
+theorem zeroElem_safe (m : Mode) (el : Bytes → Dec (Value × Bytes)) (hel : SafeF m el) (n : Nat) (sp : Bytes) :
+    Safe m (zeroElem m el n .chunksZero sp) := by
+  unfold zeroElem
+  cases m with
+  | rust => exact ⟨rfl, rfl⟩
+  | ideal =>
+    simp only
+    refine Safe.bind (decRepeat_safe _ _ ?_ n []) ?_
+    · intro bs
+      refine Safe.bind (hel []) ?_
+      intro ⟨v, _⟩ _
+      trivial
+    · intro ⟨vs, _⟩ _
+      trivial
+
+theorem unwrapArr_safe (m : Mode) (n : Nat) (vs : List Value) : Safe m (unwrapArr n vs) := by
+  unfold unwrapArr; split <;> trivial
+
+/-- what an array case needs from its element decoder, by element width -/
+def ElemOk (m : Mode) (el : Bytes → Dec (Value × Bytes)) : ElemWidth → Prop
+  | .static w => 0 < w ∧ (SafeF m el ∨ StaticStep el w)
+  | .dynamic => SafeF m el
+  | .unknown => SafeF m el ∧ ∀ bs v r, bs ≠ [] → el bs = .ok (v, r) → r.length < bs.length
+
+theorem decRepeat_either (m : Mode) (el : Bytes → Dec (Value × Bytes)) (w : Nat)
+    (h : SafeF m el ∨ StaticStep el w) (n : Nat) (bs : Bytes) (hlen : n * w ≤ bs.length) :
+    Safe m (decRepeat el n bs) := by
+  rcases h with h | h
+  · exact decRepeat_safe m el h n bs
+  · exact decRepeat_static_safe m el w h n bs hlen
+
+/-- **the twelve array cases**: with the context entries bound and an element decoder as the
+    layout promises, the array decoder does not panic (reference mode), or panics only at a
+    recorded hazard (model of the emitted code) -/
+theorem decArray_safe (m : Mode) (el : Bytes → Dec (Value × Bytes)) (ew : ElemWidth) (shape : Shape)
+    (cnt siz esz : Option Nat) (hkeys : arrayKeysOk ew shape cnt siz esz = true) (hel : ElemOk m el ew)
+    (sp : Bytes) : Safe m (decArray m el ew shape cnt siz esz sp) := by
+  unfold decArray
+  cases ew with
+  | «static» w =>
+    obtain ⟨hw, hs⟩ := hel
+    cases shape with
+    | «static» n =>
+      simp only
+      split
+      · trivial
+      · rename_i hlen
+        refine Safe.bind (decRepeat_either m el w hs n sp (by omega)) ?_
+        intro ⟨vs, r⟩ _
+        refine Safe.bind (unwrapArr_safe m n vs) ?_
+        intro _ _; trivial
+    | countField =>
+      cases cnt with
+      | none => simp [arrayKeysOk] at hkeys
+      | some n =>
+        simp only
+        refine Safe.bind (umulM_safe m n w) ?_
+        intro tot htot
+        have := umulM_ok m n w tot htot
+        split
+        · trivial
+        · exact decRepeat_either m el w hs n sp (by omega)
+    | sizeField =>
+      cases siz with
+      | none => simp [arrayKeysOk] at hkeys
+      | some sz =>
+        simp only
+        split
+        · trivial
+        · split
+          · omega
+          · split
+            · trivial
+            · rename_i hlen _ hmod
+              have : sz / w * w ≤ sz := Nat.div_mul_le_self sz w
+              exact decRepeat_either m el w hs (sz / w) sp (by omega)
+    | unknown =>
+      simp only
+      split
+      · omega
+      · split
+        · trivial
+        · have : sp.length / w * w ≤ sp.length := Nat.div_mul_le_self _ w
+          exact decRepeat_either m el w hs _ sp this
+  | dynamic =>
+    have hel' : SafeF m el := hel
+    cases esz with
+    | none => cases shape <;> simp [arrayKeysOk] at hkeys
+    | some es =>
+      cases shape with
+      | «static» n =>
+        simp only
+        refine Safe.bind (by split; trivial; exact umulM_safe m n es) ?_
+        intro tot _
+        split
+        · trivial
+        · split
+          · exact zeroElem_safe m el hel' n sp
+          · refine Safe.bind (decChunked_safe m el hel' es n sp) ?_
+            intro vs _
+            refine Safe.bind (unwrapArr_safe m n vs) ?_
+            intro _ _; trivial
+      | countField =>
+        cases cnt with
+        | none => simp [arrayKeysOk] at hkeys
+        | some n =>
+          simp only
+          refine Safe.bind (umulM_safe m n es) ?_
+          intro tot _
+          split
+          · trivial
+          · split
+            · exact zeroElem_safe m el hel' n sp
+            · refine Safe.bind (decChunked_safe m el hel' es n sp) ?_
+              intro vs _; trivial
+      | sizeField =>
+        cases siz with
+        | none => simp [arrayKeysOk] at hkeys
+        | some sz =>
+          simp only
+          split
+          · trivial
+          · split
+            · cases m with
+              | rust => simp; exact ⟨rfl, rfl⟩
+              | ideal => simp; split <;> trivial
+            · split
+              · trivial
+              · refine Safe.bind (decChunked_safe m el hel' es _ sp) ?_
+                intro vs _; trivial
+      | unknown =>
+        simp only
+        split
+        · cases m with
+          | rust => simp; exact ⟨rfl, rfl⟩
+          | ideal => simp; split <;> trivial
+        · split
+          · trivial
+          · refine Safe.bind (decChunked_safe m el hel' es _ sp) ?_
+            intro vs _; trivial
+  | unknown =>
+    obtain ⟨hs, hprog⟩ := hel
+    cases shape with
+    | «static» n =>
+      simp only
+      refine Safe.bind (decRepeat_safe m el hs n sp) ?_
+      intro ⟨vs, r⟩ _
+      refine Safe.bind (unwrapArr_safe m n vs) ?_
+      intro _ _; trivial
+    | countField =>
+      cases cnt with
+      | none => simp [arrayKeysOk] at hkeys
+      | some n => exact decRepeat_safe m el hs n sp
+    | sizeField =>
+      cases siz with
+      | none => simp [arrayKeysOk] at hkeys
+      | some sz =>
+        simp only
+        split
+        · trivial
+        · refine Safe.bind (decWhile_safe m el hs hprog (sz + 1) (sp.take sz) ?_) ?_
+          · rw [List.length_take]; omega
+          · intro vs _; trivial
+    | unknown =>
+      simp only
+      refine Safe.bind (decWhile_safe m el hs hprog (sp.length + 1) sp (by omega)) ?_
+      intro vs _; trivial
+
+theorem withPad_safe (m : Mode) (pad : Option Nat) (bs : Bytes) (k : Bytes → Dec (List Value × Bytes))
+    (hk : ∀ sp, Safe m (k sp)) : Safe m (withPad pad bs k) := by
+  unfold withPad
+  cases pad with
+  | none => exact hk bs
+  | some p =>
+    simp only
+    split
+    · trivial
+    · refine Safe.bind (hk _) ?_
+      intro ⟨vs, _⟩ _; trivial
+
+/-! ### the context: every entry an item reads has been bound by an earlier chunk -/
+
+def CtxHas (st : DState) (avail : List Key) : Prop := ∀ k ∈ avail, (st.ctx.get k).isSome = true
+
+theorem get_cons_self (k : Key) (v : Nat) (ctx : Ctx) : (Ctx.get ((k, v) :: ctx) k).isSome = true := by
+  simp [Ctx.get, List.lookup]
+
+theorem get_cons_mono (k k' : Key) (v : Nat) (ctx : Ctx) (h : (Ctx.get ctx k).isSome = true) :
+    (Ctx.get ((k', v) :: ctx) k).isSome = true := by
+  simp only [Ctx.get, List.lookup] at h ⊢
+  split <;> simp_all
+
+theorem decChunkFields_ctx (ideal : Bool) : ∀ (fs : List BitField) (shift chunk : Nat) (st st' : DState),
+    decChunkFields ideal fs shift chunk st = .ok st' →
+      (∀ k, (st.ctx.get k).isSome = true → (st'.ctx.get k).isSome = true) ∧
+      (∀ k ∈ chunkKeys fs, (st'.ctx.get k).isSome = true) := by
+  intro fs
+  induction fs with
+  | nil =>
+    intro shift chunk st st' h
+    simp only [decChunkFields, Outcome.ok.injEq] at h
+    subst h
+    exact ⟨fun _ hk => hk, by simp [chunkKeys]⟩
+  | cons f fs ih =>
+    intro shift chunk st st' h
+    have bound : ∀ (key : Key) (v : Nat) (st1 : DState), st1.ctx = (key, v) :: st.ctx →
+        decChunkFields ideal fs (shift + f.width) chunk st1 = .ok st' →
+        (∀ k, (st.ctx.get k).isSome = true → (st'.ctx.get k).isSome = true) ∧
+        (∀ k ∈ key :: chunkKeys fs, (st'.ctx.get k).isSome = true) := by
+      intro key v st1 hst1 h1
+      obtain ⟨m1, m2⟩ := ih _ _ st1 st' h1
+      refine ⟨fun k hk => m1 k (by rw [hst1]; exact get_cons_mono k key v st.ctx hk), ?_⟩
+      intro k hk
+      rcases List.mem_cons.mp hk with rfl | hk
+      · exact m1 k (by rw [hst1]; exact get_cons_self k v st.ctx)
+      · exact m2 k hk
+    have same : ∀ (st1 : DState), st1.ctx = st.ctx →
+        decChunkFields ideal fs (shift + f.width) chunk st1 = .ok st' →
+        (∀ k, (st.ctx.get k).isSome = true → (st'.ctx.get k).isSome = true) ∧
+        (∀ k ∈ chunkKeys fs, (st'.ctx.get k).isSome = true) := by
+      intro st1 hst1 h1
+      obtain ⟨m1, m2⟩ := ih _ _ st1 st' h1
+      exact ⟨fun k hk => m1 k (by rw [hst1]; exact hk), m2⟩
+    unfold decChunkFields at h
+    cases f with
+    | scalar id w => simp only [chunkKeys]; exact bound _ _ _ rfl h
+    | flag id o => simp only [chunkKeys]; exact bound _ _ _ rfl h
+    | enumTy id ty e =>
+      simp only at h
+      split at h
+      · simp only [chunkKeys]; exact bound _ _ _ rfl h
+      · cases h
+    | fixed w v =>
+      simp only at h
+      split at h
+      · simp only [chunkKeys]; exact same _ rfl h
+      · cases h
+    | reserved w => simp only [chunkKeys]; exact same _ rfl h
+    | size t w m =>
+      simp only at h
+      split at h
+      · split at h
+        · cases h
+        · simp only [chunkKeys]; exact bound _ _ _ rfl h
+      · simp only [chunkKeys]; exact bound _ _ _ rfl h
+    | count t w => simp only [chunkKeys]; exact bound _ _ _ rfl h
+    | elemSize t w => simp only [chunkKeys]; exact bound _ _ _ rfl h
+
+/-- inversion of a successful optional field -/
+theorem optional_ok (c : Cfg) (id : String) (ty : Ty) (cid : String) (cval : Nat) (bs : Bytes)
+    (st st' : DState) (r : Bytes) (h : decItem c (.optional id ty cid cval) bs st = .ok (st', r)) :
+    (∃ x, decTy c ty bs = .ok (x, r) ∧ st' = { st with fields := st.fields ++ [(id, x)] }) ∨
+    (r = bs ∧ st' = { st with fields := st.fields ++ [(id, .null)] }) := by
+  simp only [decItem] at h
+  cases hctx : st.ctx.get (.val cid) with
+  | none => simp [hctx] at h
+  | some cv =>
+    simp only [hctx] at h
+    by_cases hcv : cv = cval
+    · simp only [hcv, ↓reduceIte] at h
+      have fin : (Outcome.bind (decTy c ty bs) fun x =>
+          Outcome.ok ({ ctx := st.ctx, fields := st.fields ++ [(id, x.fst)], payload := st.payload }, x.snd))
+            = .ok (st', r) →
+          ∃ x, decTy c ty bs = .ok (x, r) ∧ st' = { st with fields := st.fields ++ [(id, x)] } := by
+        intro hb
+        obtain ⟨⟨x, r'⟩, h1, h2⟩ := bind_ok _ _ _ hb
+        simp only [Outcome.ok.injEq, Prod.mk.injEq] at h2
+        exact ⟨x, by rw [h1, h2.2], h2.1.symm⟩
+      left
+      cases ty with
+      | scalar w =>
+        simp only at h
+        split at h
+        · cases h
+        · exact fin h
+      | enumTy nm en =>
+        simp only at h
+        split at h
+        · cases h
+        · exact fin h
+      | custom nm w =>
+        simp only [Bool.false_eq_true, ↓reduceIte] at h
+        exact fin h
+      | struct nm b =>
+        simp only [Bool.false_eq_true, ↓reduceIte] at h
+        exact fin h
+    · simp only [hcv, ↓reduceIte, Outcome.ok.injEq, Prod.mk.injEq] at h
+      exact Or.inr ⟨h.2.symm, h.1.symm⟩
+
+/-- after an item the context still has every entry it had, plus — after a chunk — the chunk's -/
+theorem decItem_ctx (c : Cfg) (i : Item) (bs : Bytes) (st st' : DState) (r : Bytes) (avail : List Key)
+    (h : decItem c i bs st = .ok (st', r)) (hc : CtxHas st avail) :
+    CtxHas st' (availAfter avail i) := by
+  cases i with
+  | chunk fs =>
+    simp only [availAfter]
+    simp only [decItem, decChunk] at h
+    split at h
+    · cases h
+    · obtain ⟨st1, h1, h2⟩ := bind_ok _ _ _ h
+      simp only [Outcome.ok.injEq, Prod.mk.injEq] at h2
+      obtain ⟨m1, m2⟩ := decChunkFields_ctx _ _ _ _ _ _ h1
+      intro k hk
+      rw [← h2.1]
+      rcases List.mem_append.mp hk with hk | hk
+      · exact m2 k hk
+      · exact m1 k (hc k hk)
+  | typedef id ty sb =>
+    have key : st'.ctx = st.ctx := by
+      cases ty with
+      | custom nm w =>
+        simp only [decItem] at h
+        split at h
+        · split at h <;> cases h
+        · obtain ⟨⟨x, r'⟩, _, h2⟩ := bind_ok _ _ _ h
+          simp only [Outcome.ok.injEq, Prod.mk.injEq] at h2
+          rw [← h2.1]
+      | scalar w =>
+        simp only [decItem] at h
+        obtain ⟨⟨x, r'⟩, _, h2⟩ := bind_ok _ _ _ h
+        simp only [Outcome.ok.injEq, Prod.mk.injEq] at h2
+        rw [← h2.1]
+      | enumTy nm en =>
+        simp only [decItem] at h
+        obtain ⟨⟨x, r'⟩, _, h2⟩ := bind_ok _ _ _ h
+        simp only [Outcome.ok.injEq, Prod.mk.injEq] at h2
+        rw [← h2.1]
+      | struct nm b =>
+        simp only [decItem] at h
+        obtain ⟨⟨x, r'⟩, _, h2⟩ := bind_ok _ _ _ h
+        simp only [Outcome.ok.injEq, Prod.mk.injEq] at h2
+        rw [← h2.1]
+    intro k hk; rw [key]; exact hc k hk
+  | optional id ty cid cval =>
+    have key : st'.ctx = st.ctx := by
+      rcases optional_ok c id ty cid cval bs st st' r h with ⟨x, _, hst⟩ | ⟨_, hst⟩ <;> rw [hst]
+    intro k hk; rw [key]; exact hc k hk
+  | payload mode =>
+    have key : st'.ctx = st.ctx := by
+      simp only [decItem] at h
+      cases mode with
+      | sized m =>
+        simp only at h
+        split at h
+        · cases h
+        · split at h
+          · cases h
+          · split at h
+            · cases h
+            · simp only [Outcome.ok.injEq, Prod.mk.injEq] at h; rw [← h.1]
+      | last => simp only [Outcome.ok.injEq, Prod.mk.injEq] at h; rw [← h.1]
+      | beforeStatic k =>
+        simp only at h
+        split at h
+        · cases h
+        · simp only [Outcome.ok.injEq, Prod.mk.injEq] at h; rw [← h.1]
+      | undelimited => cases h
+    intro k hk; rw [key]; exact hc k hk
+  | array id elem ew shape pad =>
+    have key : st'.ctx = st.ctx := by
+      simp only [decItem] at h
+      split at h
+      · cases h
+      · obtain ⟨⟨vs, r'⟩, _, h2⟩ := bind_ok _ _ _ h
+        simp only [Outcome.ok.injEq, Prod.mk.injEq] at h2
+        rw [← h2.1]
+    intro k hk; rw [key]; exact hc k hk
+
+/-! ### the whole decoder -/
+
+theorem safe_of_not_panic {α : Type} (m : Mode) (o : Dec α) (h : o.isPanic = false) : Safe m o := by
+  cases o with
+  | ok a => trivial
+  | err e => trivial
+  | panic q => simp [Outcome.isPanic] at h
+
+/-- an unguarded scalar / enum element read is a `StaticStep` of its static width -/
+theorem decTy_static_step (c : Cfg) (ty : Ty) (w : Nat) (hs : staticTy ty = some w)
+    (hg : ty.selfGuarded = false) : StaticStep (decTy c ty) w := by
+  intro bs hlen
+  cases ty with
+  | scalar W =>
+    simp only [staticTy, Option.some.injEq] at hs
+    simp only [decTy, getUint]
+    have : ¬ bs.length < W / 8 := by omega
+    simp only [this, ↓reduceIte, Outcome.bind]
+    exact Or.inl ⟨_, by rw [hs]⟩
+  | enumTy nm en =>
+    simp only [staticTy, Option.some.injEq] at hs
+    simp only [decTy, getUint]
+    have : ¬ bs.length < en.width / 8 := by omega
+    simp only [this, ↓reduceIte, Outcome.bind]
+    repeat' split
+    all_goals first
+      | exact Or.inl ⟨_, by rw [hs]⟩
+      | exact Or.inr ⟨_, rfl⟩
+  | custom nm W => simp [Ty.selfGuarded] at hg
+  | struct nm b => simp [Ty.selfGuarded] at hg
+
+theorem ctxHas_contains (st : DState) (avail : List Key) (k : Key) (hc : CtxHas st avail)
+    (h : avail.contains k = true) : ∃ v, st.ctx.get k = some v := by
+  have hm : k ∈ avail := by simpa using h
+  have := hc k hm
+  cases hg : st.ctx.get k with
+  | none => simp [hg] at this
+  | some v => exact ⟨v, rfl⟩
+
+mutual
+theorem decTy_safe (c : Cfg) : ∀ (ty : Ty), decWfTy ty = true → ty.selfGuarded = true →
+    SafeF c.mode (decTy c ty)
+  | .scalar w, _, hg => by simp [Ty.selfGuarded] at hg
+  | .enumTy _ _, _, hg => by simp [Ty.selfGuarded] at hg
+  | .custom _ w, _, _ => by
+    intro bs
+    simp only [decTy]
+    split
+    · trivial
+    · rename_i hlen
+      refine Safe.bind (safe_of_not_panic _ _ (getUint_no_panic c.e w bs (by omega))) ?_
+      intro ⟨v, r⟩ _; trivial
+  | .struct _ b, hw, _ => by
+    intro bs
+    simp only [decTy]
+    exact decBody_safe c b (by simpa [decWfTy] using hw) bs
+
+theorem decItem_safe (c : Cfg) : ∀ (i : Item) (avail : List Key) (bs : Bytes) (st : DState),
+    decWfItem avail i = true → CtxHas st avail → Safe c.mode (decItem c i bs st)
+  | .chunk fs, avail, bs, st, _, _ => by
+    simp only [decItem]
+    exact safe_of_not_panic _ _ (decChunk_no_panic _ _ _ _ _)
+  | .typedef id ty sb, avail, bs, st, hw, _ => by
+    simp only [decWfItem, Bool.and_eq_true] at hw
+    cases ty with
+    | scalar w => simp [Ty.selfGuarded] at hw
+    | enumTy nm en => simp [Ty.selfGuarded] at hw
+    | custom nm w =>
+      simp only [decItem]
+      split
+      · cases hm : c.mode with
+        | rust => exact ⟨rfl, rfl⟩
+        | ideal => trivial
+      · rename_i hlen
+        refine Safe.bind (safe_of_not_panic _ _ (getUint_no_panic c.e w bs (by omega))) ?_
+        intro ⟨v, r⟩ _; trivial
+    | struct nm b =>
+      simp only [decItem]
+      refine Safe.bind (decTy_safe c (.struct nm b) hw.2 hw.1 bs) ?_
+      intro ⟨v, r⟩ _; trivial
+  | .optional id ty cid cval, avail, bs, st, hw, hc => by
+    simp only [decWfItem, Bool.and_eq_true] at hw
+    obtain ⟨cv, hcv⟩ := ctxHas_contains st avail _ hc hw.1
+    simp only [decItem, hcv]
+    by_cases heq : cv = cval
+    · simp only [heq, ↓reduceIte]
+      cases ty with
+      | scalar w =>
+        simp only
+        split
+        · trivial
+        · rename_i hlen
+          refine Safe.bind ?_ ?_
+          · simp only [decTy]
+            refine Safe.bind (safe_of_not_panic _ _ (getUint_no_panic c.e w bs (by simpa using hlen))) ?_
+            intro ⟨v, r⟩ _; trivial
+          · intro ⟨v, r⟩ _; trivial
+      | enumTy nm en =>
+        simp only
+        split
+        · trivial
+        · rename_i hlen
+          refine Safe.bind ?_ ?_
+          · simp only [decTy]
+            refine Safe.bind (safe_of_not_panic _ _ (getUint_no_panic c.e en.width bs (by simpa using hlen))) ?_
+            intro ⟨v, r⟩ _
+            simp only
+            split <;> trivial
+          · intro ⟨v, r⟩ _; trivial
+      | custom nm w =>
+        simp only [Bool.false_eq_true, ↓reduceIte]
+        refine Safe.bind (decTy_safe c (.custom nm w) hw.2 rfl bs) ?_
+        intro ⟨v, r⟩ _; trivial
+      | struct nm b =>
+        simp only [Bool.false_eq_true, ↓reduceIte]
+        refine Safe.bind (decTy_safe c (.struct nm b) hw.2 rfl bs) ?_
+        intro ⟨v, r⟩ _; trivial
+    · simp only [heq, ↓reduceIte]; trivial
+  | .payload mode, avail, bs, st, hw, hc => by
+    simp only [decWfItem] at hw
+    simp only [decItem]
+    cases mode with
+    | sized m =>
+      obtain ⟨sz, hsz⟩ := ctxHas_contains st avail _ hc hw
+      simp only [hsz]
+      split
+      · trivial
+      · split <;> trivial
+    | last => trivial
+    | beforeStatic k => simp only; split <;> trivial
+    | undelimited => simp at hw
+  | .array id elem ew shape pad, avail, bs, st, hw, hc => by
+    simp only [decWfItem, Bool.and_eq_true] at hw
+    obtain ⟨⟨hwt, hew⟩, hshape⟩ := hw
+    simp only [decItem]
+    have hkeys : arrayKeysOk ew shape (st.ctx.get (.count id)) (st.ctx.get (.size id)) (st.ctx.get (.esize id)) = true := by
+      simp only [arrayKeysOk, Bool.and_eq_true]
+      constructor
+      · cases shape with
+        | «static» n => rfl
+        | countField =>
+          obtain ⟨v, hv⟩ := ctxHas_contains st avail _ hc hshape
+          simp [hv]
+        | sizeField =>
+          obtain ⟨v, hv⟩ := ctxHas_contains st avail _ hc hshape
+          simp [hv]
+        | unknown => rfl
+      · cases ew with
+        | «static» w => rfl
+        | dynamic =>
+          simp only [Bool.and_eq_true] at hew
+          obtain ⟨v, hv⟩ := ctxHas_contains st avail _ hc hew.1
+          simp [hv]
+        | unknown => rfl
+    simp only [hkeys, Bool.not_true, Bool.false_eq_true, ↓reduceIte]
+    have hel : ElemOk c.mode (decTy c elem) ew := by
+      cases ew with
+      | «static» w =>
+        simp only [Bool.and_eq_true, decide_eq_true_eq, Bool.or_eq_true] at hew
+        refine ⟨hew.1, ?_⟩
+        by_cases hg : elem.selfGuarded = true
+        · exact Or.inl (decTy_safe c elem hwt hg)
+        · have hg' : elem.selfGuarded = false := by simpa using hg
+          rcases hew.2 with h | h
+          · exact absurd h hg
+          · exact Or.inr (decTy_static_step c elem w (by simpa using h) hg')
+      | dynamic =>
+        simp only [Bool.and_eq_true] at hew
+        exact decTy_safe c elem hwt hew.2
+      | unknown =>
+        simp only [Bool.and_eq_true, decide_eq_true_eq] at hew
+        refine ⟨decTy_safe c elem hwt hew.1, ?_⟩
+        intro b v r _ hb
+        have := decTy_consumes c elem b v r hb
+        omega
+    refine Safe.bind (withPad_safe c.mode pad bs _ (fun sp => decArray_safe c.mode _ ew shape _ _ _ hkeys hel sp)) ?_
+    intro ⟨vs, r⟩ _; trivial
+
+theorem decItems_safe (c : Cfg) : ∀ (is : Items) (avail : List Key) (bs : Bytes) (st : DState),
+    decWfItems avail is = true → CtxHas st avail → Safe c.mode (decItems c is bs st)
+  | .nil, _, _, _, _, _ => by simp only [decItems]; trivial
+  | .cons i r, avail, bs, st, hw, hc => by
+    simp only [decWfItems, Bool.and_eq_true] at hw
+    simp only [decItems]
+    refine Safe.bind (decItem_safe c i avail bs st hw.1 hc) ?_
+    intro ⟨st1, b1⟩ h1
+    exact decItems_safe c r _ b1 st1 hw.2 (decItem_ctx c i bs st st1 b1 avail h1 hc)
+
+theorem decBody_safe (c : Cfg) : ∀ (b : Body), decWfBody b = true → ∀ bs, Safe c.mode (decBody c b bs)
+  | .root _ items, hw, bs => by
+    simp only [decWfBody] at hw
+    simp only [decBody]
+    refine Safe.bind (decItems_safe c items [] bs DState.empty hw (by intro k hk; simp at hk)) ?_
+    intro ⟨st, r⟩ _; trivial
+  | .derived _ parent cs _ items, hw, bs => by
+    simp only [decWfBody, Bool.and_eq_true] at hw
+    simp only [decBody]
+    refine Safe.bind (decBody_safe c parent hw.1 bs) ?_
+    intro ⟨pv, r⟩ _
+    refine Safe.bind ?_ (by intro v _; trivial)
+    simp only [decPartialWith]
+    split
+    · trivial
+    · split
+      · refine Safe.bind (decItems_safe c items [] _ DState.empty hw.2 (by intro k hk; simp at hk)) ?_
+        intro ⟨st, rest⟩ _
+        simp only
+        split <;> trivial
+      · trivial
+end
+
+/-! ### the remainder is a suffix of the input -/
+
+theorem zeroElem_suffix (m : Mode) (el : Bytes → Dec (Value × Bytes)) (n : Nat) (hz : Hazard) (sp : Bytes)
+    (vs : List Value) (r : Bytes) (h : zeroElem m el n hz sp = .ok (vs, r)) : IsSuffix r sp := by
+  unfold zeroElem at h
+  cases m with
+  | rust => cases h
+  | ideal =>
+    simp only at h
+    obtain ⟨a, _, ha⟩ := bind_ok _ _ _ h
+    simp only [Outcome.ok.injEq, Prod.mk.injEq] at ha
+    rw [← ha.2]; exact IsSuffix.refl _
+
+theorem decArray_suffix (m : Mode) (el : Bytes → Dec (Value × Bytes)) (hel : SuffixSafe el)
+    (ew : ElemWidth) (shape : Shape) (cnt siz esz : Option Nat) (sp : Bytes) (vs : List Value) (r : Bytes)
+    (h : decArray m el ew shape cnt siz esz sp = .ok (vs, r)) : IsSuffix r sp := by
+  have hrep := decRepeat_suffix el hel
+  unfold decArray at h
+  cases ew <;> cases shape <;> simp only at h
+  · split at h
+    · cases h
+    · obtain ⟨⟨ws, r'⟩, h1, h2⟩ := bind_ok _ _ _ h
+      obtain ⟨ws', _, h4⟩ := bind_ok _ _ _ h2
+      simp only [Outcome.ok.injEq, Prod.mk.injEq] at h4
+      rw [← h4.2]; exact hrep _ _ _ _ h1
+  · cases cnt with
+    | none => cases h
+    | some n =>
+      simp only at h
+      obtain ⟨tot, _, h2⟩ := bind_ok _ _ _ h
+      split at h2
+      · cases h2
+      · exact hrep _ _ _ _ h2
+  · cases siz with
+    | none => cases h
+    | some sz =>
+      simp only at h
+      split at h
+      · cases h
+      · split at h
+        · cases h
+        · split at h
+          · cases h
+          · exact hrep _ _ _ _ h
+  · split at h
+    · cases h
+    · split at h
+      · cases h
+      · exact hrep _ _ _ _ h
+  · cases esz with
+    | none => cases h
+    | some es =>
+      simp only at h
+      obtain ⟨tot, _, h2⟩ := bind_ok _ _ _ h
+      split at h2
+      · cases h2
+      · split at h2
+        · exact zeroElem_suffix _ _ _ _ _ _ _ h2
+        · obtain ⟨ws, _, h3⟩ := bind_ok _ _ _ h2
+          obtain ⟨ws', _, h4⟩ := bind_ok _ _ _ h3
+          simp only [Outcome.ok.injEq, Prod.mk.injEq] at h4
+          rw [← h4.2]; exact IsSuffix.drop _ _
+  · cases esz with
+    | none => cases h
+    | some es =>
+      cases cnt with
+      | none => cases h
+      | some n =>
+        simp only at h
+        obtain ⟨tot, _, h2⟩ := bind_ok _ _ _ h
+        split at h2
+        · cases h2
+        · split at h2
+          · exact zeroElem_suffix _ _ _ _ _ _ _ h2
+          · obtain ⟨ws, _, h3⟩ := bind_ok _ _ _ h2
+            simp only [Outcome.ok.injEq, Prod.mk.injEq] at h3
+            rw [← h3.2]; exact IsSuffix.drop _ _
+  · cases esz with
+    | none => cases h
+    | some es =>
+      cases siz with
+      | none => cases h
+      | some sz =>
+        simp only at h
+        split at h
+        · cases h
+        · split at h
+          · split at h
+            · split at h
+              · simp only [Outcome.ok.injEq, Prod.mk.injEq] at h; rw [← h.2]; exact IsSuffix.refl _
+              · cases h
+            · cases h
+          · split at h
+            · cases h
+            · obtain ⟨ws, _, h3⟩ := bind_ok _ _ _ h
+              simp only [Outcome.ok.injEq, Prod.mk.injEq] at h3
+              rw [← h3.2]; exact IsSuffix.drop _ _
+  · cases esz with
+    | none => cases h
+    | some es =>
+      simp only at h
+      split at h
+      · split at h
+        · split at h
+          · simp only [Outcome.ok.injEq, Prod.mk.injEq] at h; rw [← h.2]; exact IsSuffix.refl _
+          · cases h
+        · cases h
+      · split at h
+        · cases h
+        · obtain ⟨ws, _, h3⟩ := bind_ok _ _ _ h
+          simp only [Outcome.ok.injEq, Prod.mk.injEq] at h3
+          rw [← h3.2]; exact IsSuffix.nil _
+  · obtain ⟨⟨ws, r'⟩, h1, h2⟩ := bind_ok _ _ _ h
+    obtain ⟨ws', _, h4⟩ := bind_ok _ _ _ h2
+    simp only [Outcome.ok.injEq, Prod.mk.injEq] at h4
+    rw [← h4.2]; exact hrep _ _ _ _ h1
+  · cases cnt with
+    | none => cases h
+    | some n => exact hrep _ _ _ _ h
+  · cases siz with
+    | none => cases h
+    | some sz =>
+      simp only at h
+      split at h
+      · cases h
+      · obtain ⟨ws, _, h3⟩ := bind_ok _ _ _ h
+        simp only [Outcome.ok.injEq, Prod.mk.injEq] at h3
+        rw [← h3.2]; exact IsSuffix.drop _ _
+  · obtain ⟨ws, _, h3⟩ := bind_ok _ _ _ h
+    simp only [Outcome.ok.injEq, Prod.mk.injEq] at h3
+    rw [← h3.2]; exact IsSuffix.nil _
+
+theorem withPad_suffix (pad : Option Nat) (bs : Bytes) (k : Bytes → Dec (List Value × Bytes))
+    (hk : ∀ sp vs r, k sp = .ok (vs, r) → IsSuffix r sp) (vs : List Value) (r : Bytes)
+    (h : withPad pad bs k = .ok (vs, r)) : IsSuffix r bs := by
+  unfold withPad at h
+  cases pad with
+  | none => exact hk bs vs r h
+  | some p =>
+    simp only at h
+    split at h
+    · cases h
+    · obtain ⟨⟨ws, r'⟩, _, h2⟩ := bind_ok _ _ _ h
+      simp only [Outcome.ok.injEq, Prod.mk.injEq] at h2
+      rw [← h2.2]; exact IsSuffix.drop _ _
+
+mutual
+theorem decTy_suffix (c : Cfg) : ∀ (ty : Ty), SuffixSafe (decTy c ty)
+  | .scalar w => by
+    intro bs v r h
+    simp only [decTy] at h
+    obtain ⟨⟨x, r'⟩, h1, h2⟩ := bind_ok _ _ _ h
+    simp only [Outcome.ok.injEq, Prod.mk.injEq] at h2
+    rw [← h2.2]; exact getUint_suffix _ _ _ _ _ h1
+  | .enumTy _ en => by
+    intro bs v r h
+    simp only [decTy] at h
+    obtain ⟨⟨x, r'⟩, h1, h2⟩ := bind_ok _ _ _ h
+    simp only at h2
+    split at h2
+    · simp only [Outcome.ok.injEq, Prod.mk.injEq] at h2
+      rw [← h2.2]; exact getUint_suffix _ _ _ _ _ h1
+    · cases h2
+  | .custom _ w => by
+    intro bs v r h
+    simp only [decTy] at h
+    split at h
+    · cases h
+    · obtain ⟨⟨x, r'⟩, h1, h2⟩ := bind_ok _ _ _ h
+      simp only [Outcome.ok.injEq, Prod.mk.injEq] at h2
+      rw [← h2.2]; exact getUint_suffix _ _ _ _ _ h1
+  | .struct _ b => by
+    intro bs v r h
+    simp only [decTy] at h
+    exact decBody_suffix c b bs v r h
+
+theorem decItem_suffix (c : Cfg) : ∀ (i : Item) (bs : Bytes) (st st' : DState) (r : Bytes),
+    decItem c i bs st = .ok (st', r) → IsSuffix r bs
+  | .chunk fs, bs, st, st', r, h => by
+    simp only [decItem] at h
+    exact decChunk_suffix _ _ _ _ _ _ _ h
+  | .typedef id ty sb, bs, st, st', r, h => by
+    cases ty with
+    | custom nm w =>
+      simp only [decItem] at h
+      split at h
+      · split at h <;> cases h
+      · obtain ⟨⟨x, r'⟩, h1, h2⟩ := bind_ok _ _ _ h
+        simp only [Outcome.ok.injEq, Prod.mk.injEq] at h2
+        rw [← h2.2]; exact getUint_suffix _ _ _ _ _ h1
+    | scalar w =>
+      simp only [decItem] at h
+      obtain ⟨⟨x, r'⟩, h1, h2⟩ := bind_ok _ _ _ h
+      simp only [Outcome.ok.injEq, Prod.mk.injEq] at h2
+      rw [← h2.2]; exact decTy_suffix c (.scalar w) bs x r' h1
+    | enumTy nm en =>
+      simp only [decItem] at h
+      obtain ⟨⟨x, r'⟩, h1, h2⟩ := bind_ok _ _ _ h
+      simp only [Outcome.ok.injEq, Prod.mk.injEq] at h2
+      rw [← h2.2]; exact decTy_suffix c (.enumTy nm en) bs x r' h1
+    | struct nm b =>
+      simp only [decItem] at h
+      obtain ⟨⟨x, r'⟩, h1, h2⟩ := bind_ok _ _ _ h
+      simp only [Outcome.ok.injEq, Prod.mk.injEq] at h2
+      rw [← h2.2]; exact decTy_suffix c (.struct nm b) bs x r' h1
+  | .optional id ty cid cval, bs, st, st', r, h => by
+    rcases optional_ok c id ty cid cval bs st st' r h with ⟨x, hx, _⟩ | ⟨hr, _⟩
+    · exact decTy_suffix c ty bs x r hx
+    · rw [hr]; exact IsSuffix.refl _
+  | .payload mode, bs, st, st', r, h => by
+    simp only [decItem] at h
+    cases mode with
+    | sized m =>
+      simp only at h
+      split at h
+      · cases h
+      · split at h
+        · cases h
+        · split at h
+          · cases h
+          · simp only [Outcome.ok.injEq, Prod.mk.injEq] at h
+            rw [← h.2]; exact IsSuffix.drop _ _
+    | last =>
+      simp only [Outcome.ok.injEq, Prod.mk.injEq] at h
+      rw [← h.2]; exact IsSuffix.nil _
+    | beforeStatic k =>
+      simp only at h
+      split at h
+      · cases h
+      · simp only [Outcome.ok.injEq, Prod.mk.injEq] at h
+        rw [← h.2]; exact IsSuffix.drop _ _
+    | undelimited => cases h
+  | .array id elem ew shape pad, bs, st, st', r, h => by
+    simp only [decItem] at h
+    split at h
+    · cases h
+    · obtain ⟨⟨vs, r'⟩, h1, h2⟩ := bind_ok _ _ _ h
+      simp only [Outcome.ok.injEq, Prod.mk.injEq] at h2
+      rw [← h2.2]
+      refine withPad_suffix pad bs _ ?_ vs r' h1
+      intro sp ws q hq
+      exact decArray_suffix c.mode (decTy c elem) (decTy_suffix c elem) ew shape _ _ _ sp ws q hq
+
+theorem decItems_suffix (c : Cfg) : ∀ (is : Items) (bs : Bytes) (st st' : DState) (r : Bytes),
+    decItems c is bs st = .ok (st', r) → IsSuffix r bs
+  | .nil, bs, st, st', r, h => by
+    simp only [decItems, Outcome.ok.injEq, Prod.mk.injEq] at h
+    rw [← h.2]; exact IsSuffix.refl _
+  | .cons i is, bs, st, st', r, h => by
+    simp only [decItems] at h
+    obtain ⟨⟨st1, b1⟩, h1, h2⟩ := bind_ok _ _ _ h
+    exact (decItems_suffix c is b1 st1 st' r h2).trans (decItem_suffix c i bs st st1 b1 h1)
+
+theorem decBody_suffix (c : Cfg) : ∀ (b : Body) (bs : Bytes) (v : Value) (r : Bytes),
+    decBody c b bs = .ok (v, r) → IsSuffix r bs
+  | .root _ items, bs, v, r, h => by
+    simp only [decBody] at h
+    obtain ⟨⟨st1, b1⟩, h1, h2⟩ := bind_ok _ _ _ h
+    simp only [Outcome.ok.injEq, Prod.mk.injEq] at h2
+    rw [← h2.2]
+    exact decItems_suffix c items bs DState.empty st1 b1 h1
+  | .derived _ parent cs _ items, bs, v, r, h => by
+    simp only [decBody] at h
+    obtain ⟨⟨pv, b1⟩, h1, h2⟩ := bind_ok _ _ _ h
+    obtain ⟨x, _, h3⟩ := bind_ok _ _ _ h2
+    simp only [Outcome.ok.injEq, Prod.mk.injEq] at h3
+    rw [← h3.2]
+    exact decBody_suffix c parent bs pv b1 h1
+end
+
+/-! ### C01, stated -/
+
+/-- **The reference decoder is total**: for every layout the decoder generator handles
+    (`decWfBody`, evaluated by the check on every generated layout), in both byte orders, `decode`
+    returns a value or a `DecodeError` on EVERY byte string — no bound on the input, on array
+    counts, nesting or inheritance depth. -/
+theorem decode_no_panic_ideal (e : Endian) (b : Body) (hw : decWfBody b = true) (bs : Bytes) :
+    (decBody { e := e, mode := .ideal } b bs).isPanic = false := by
+  have := decBody_safe { e := e, mode := .ideal } b hw bs
+  cases h : decBody { e := e, mode := .ideal } b bs with
+  | ok a => rfl
+  | err x => rfl
+  | panic q => rw [h] at this; exact absurd this.1 (by simp)
+
+/-- **The emitted decoder panics only at the four recorded call sites** (`count * width` on usize,
+    the unguarded read of a sized custom field, `chunks(0)` and `% 0` for an element size of zero):
+    every other read, slice, loop and subtraction is dominated by its guard, on every input. -/
+theorem decode_panics_only_at_known_hazards (e : Endian) (b : Body) (hw : decWfBody b = true)
+    (bs : Bytes) (h : Hazard) (hp : decBody { e := e, mode := .rust } b bs = .panic h) :
+    knownHazard h = true := by
+  have := decBody_safe { e := e, mode := .rust } b hw bs
+  rw [hp] at this
+  exact this.2
+
+/-- the same for `decode_full` (pdl-runtime): the trailing-bytes check adds no panic -/
+theorem decode_full_no_panic_ideal (e : Endian) (b : Body) (hw : decWfBody b = true) (bs : Bytes) :
+    (decodeFull { e := e, mode := .ideal } b bs).isPanic = false := by
+  unfold decodeFull
+  have := decode_no_panic_ideal e b hw bs
+  cases h : decBody { e := e, mode := .ideal } b bs with
+  | ok a => simp only [Outcome.bind]; split <;> rfl
+  | err x => rfl
+  | panic q => simp [h, Outcome.isPanic] at this
+
+/-- **`decode` never returns more than it was given**, and consumes at least the octets the layout
+    makes mandatory — all layouts, all inputs, both modes (no well-formedness needed) -/
+theorem decode_remainder_bound (c : Cfg) (b : Body) (bs : Bytes) (v : Value) (r : Bytes)
+    (h : decBody c b bs = .ok (v, r)) : r.length + minBody b ≤ bs.length :=
+  decBody_consumes c b bs v r h
+
+/-- **`decode` returns a suffix of its input**: the remainder handed back is exactly the tail of
+    the byte string that was not consumed — all layouts, all inputs, both modes -/
+theorem decode_suffix (c : Cfg) (b : Body) (bs : Bytes) (v : Value) (r : Bytes)
+    (h : decBody c b bs = .ok (v, r)) : ∃ consumed, bs = consumed ++ r :=
+  decBody_suffix c b bs v r h
+
+/-! non-vacuity: `packet P { _count_(x): 8, c: 1, _reserved_: 7, x: 16[], o: 8 if c = 1, _payload_ }` -/
+example : decWfBody (.root "P" (.cons (.chunk [.count "x" 8, .flag "c" [("o", 1)], .reserved 7])
+    (.cons (.array "x" (.scalar 16) (.static 2) .countField none)
+    (.cons (.optional "o" (.scalar 8) "c" 1) (.cons (.payload .last) .nil))))) = true := by
+  simp [decWfBody, decWfItems, decWfItem, decWfTy, availAfter, chunkKeys, staticTy, Ty.selfGuarded]
 
 end Pdlv
